@@ -50,6 +50,11 @@ func c16Node(r *rand.Rand, id string) *sbom.Node {
 		for _, a := range c16Algos {
 			if r.Intn(2) == 0 {
 				n.Hashes[a] = fmt.Sprintf("v%d", r.Intn(2))
+				if r.Intn(4) == 0 {
+					// digests that differ only in letter case are different strings; one with upper-case letters
+					// equals itself
+					n.Hashes[a] = gen.Pick(r, []string{"V0", "V1", "aB", "Ab", "AB", "ab"})
+				}
 				if c16EmptyValues && r.Intn(4) == 0 {
 					n.Hashes[a] = "" // an algorithm that is present with an empty value (a decoded document can carry it)
 				}
